@@ -71,10 +71,14 @@ def _cases(tier):
             for n in MD:
                 if 9 in o.values() or 9 in n.values():
                     cases.append({"sh": sh, "old": o, "new": n})
-    for sh in ("uniinlist", "unidict"):
+    for sh in ("uniinlist", "unidict", "hrlist", "hrdict"):
         cases += [{"sh": sh, "old": o, "new": n} for o in S3 for n in S3]
     cases += [{"sh": sh, "old": o, "new": n, "weird": True} for sh in ("list", "indict") for o in S3 for n in S3 if o]
     # the same with hand-written parentheses around element expressions (all / every second element)
+    for par in ("ml", "mlodd"):
+        for sh in ("list", "indict", "dict"):
+            src = S3 if sh != "dict" else _maps()
+            cases += [{"sh": sh, "old": o, "new": n, "par": par} for o in src for n in src if o]
     for par in ("all", "odd", "even"):
         for sh in ("list", "tuple", "indict"):
             cases += [{"sh": sh, "old": o, "new": n, "par": par} for o in S3 for n in S3 if o]
@@ -113,6 +117,9 @@ def _par(c, i, t):
     m = c.get("par")
     if m == "all" or (m == "odd" and i % 2 == 1) or (m == "even" and i % 2 == 0):
         return "(" + t + ")"
+    if m == "ml" or (m == "mlodd" and i % 2 == 1):
+        # the parentheses on lines of their own, a comment inside (the way a long implicit concatenation is wrapped by hand)
+        return "(\n        " + t + "  # kept\n    )"
     return t
 
 
@@ -127,6 +134,10 @@ def _old_text(c):
     sh = c["sh"]
     if sh in ("list", "tuple"):
         return _seq_text(c["old"], sh, c)
+    if sh == "hrlist":
+        return "[HasRepr(Strict, '<Strict %%d>' %% 1), %s, 8]" % _seq_text(c["old"], "list", c)
+    if sh == "hrdict":
+        return "{'h': HasRepr(Strict, '<Strict %%d>' %% 1), 'k': %s}" % _seq_text(c["old"], "list", c)
     if sh == "inlist":
         return "[7, %s, 8]" % _seq_text(c["old"], "list", c)
     if sh == "uniinlist":
@@ -149,6 +160,10 @@ def _new_expr(c):
         return repr(list(n))
     if sh == "tuple":
         return repr(tuple(n))
+    if sh == "hrlist":
+        return "[Strict(1), %r, 8]" % list(n)
+    if sh == "hrdict":
+        return "{'h': Strict(1), 'k': %r}" % list(n)
     if sh == "inlist":
         return repr([7, list(n), 8])
     if sh == "uniinlist":
@@ -169,14 +184,19 @@ def _new_expr(c):
 def _site(i, c):
     if c["sh"] == "localcall":
         return "def test_%d():\n%s    assert %s == snapshot(%s)\n" % (i, LOCAL_KINDS[c["kind"]], _new_expr(c), _old_text(c))
+    if c["sh"] in ("hrlist", "hrdict"):
+        # Strict.__eq__ answers False for foreign types: the stand-in has to be the left operand (also when re-executed plainly)
+        return "def test_%d():\n    assert snapshot(%s) == %s\n" % (i, _old_text(c), _new_expr(c))
     return "def test_%d():\n    assert %s == snapshot(%s)\n" % (i, _new_expr(c), _old_text(c))
 
 
 def _elts(node, sh):
     if sh in ("list", "tuple"):
         return node.elts
-    if sh in ("inlist", "uniinlist"):
+    if sh in ("inlist", "uniinlist", "hrlist"):
         return node.elts[1].elts
+    if sh == "hrdict":
+        return node.values[1].elts
     if sh in ("indict", "unidict"):
         return node.values[0].elts
 
@@ -222,6 +242,8 @@ def _analyze(c, i, before, after, rx, ctx):
         elts = _elts(node, sh)
     except Exception as e:  # noqa
         return ("shape-lost", "%s: %s" % (text[:200], e))
+    if sh in ("hrlist", "hrdict") and "HasRepr(Strict, '<Strict %d>' % 1)" not in text:
+        return ("equal-entry-rewritten", "the HasRepr entry compares equal to the observed object, its text is gone: %s" % text[:200])
     texts = [loc.seg(e) for e in elts]
     old, new = c["old"], c["new"]
     if len(texts) != len(new):
@@ -246,6 +268,9 @@ WEIRD = "W1 = 'u2028:\u2028 u2029:\u2029 x85:\x85 x1c:\x1c'  # \x0b vt\n\x0c\nW2
 
 def _judge(cases):
     hdr = DC3 if any(c["sh"] in ("kwcall", "ntcall", "dcrcall", "localcall") for c in cases) else ""
+    if any(c["sh"] in ("hrlist", "hrdict") for c in cases):
+        hdr = ("from inline_snapshot import HasRepr\n\n\nclass Strict:\n    def __init__(self, n):\n        self.n = n\n\n    def __repr__(self):\n        return '<Strict %d>' % self.n\n\n"
+               "    def __eq__(self, other):\n        if not isinstance(other, Strict):\n            return False\n        return self.n == other.n\n\n\n") + hdr
     if any(c["sh"] in ("ddict", "ddictin") for c in cases):
         hdr = "from collections import defaultdict\n" + hdr
     if any(c.get("weird") for c in cases):
